@@ -429,6 +429,12 @@ func (s *session) EnqueueBytesAndSend(msg []byte) {
 	s.sendMutex.Lock()
 	defer s.sendMutex.Unlock()
 
+	// Messages queued by the application while not logged on must not be flushed along
+	// with a replay (SendAppMessages would drop them as well).
+	if !s.IsLoggedOn() {
+		s.dropQueued()
+	}
+
 	s.toSend = append(s.toSend, msg)
 	s.sendQueued(true)
 }
